@@ -25,6 +25,23 @@ CHECKS["C02"] = dict(cat="fault_enumeration", ref="4 C02", engine="fault-enumera
          "run of the same chain by the same build. Trusted: TLC, sqlwrap driver wrapper (checked not to perturb results), fake factomd.",
     technique="TLA+ spec of the sync loop (Sync.tla) + TLC exhaustive + crash-point enumeration replayed through the spec")
 
+CHECKS["C04"] = dict(cat="model_checking", ref="4 C04",
+    text="MC_Ledger (TLC, exhaustive over chains of a block menu) proves SupplyOK: per-asset supply delta of every block equals rewards + conversions in/out "
+         "- burn outputs - scheduled zeroing, exactly. Real runs of random live-era traffic and of the structurally rich chain are validated block by block "
+         "by TLC: the full balance table must equal the exact effects of the block's enumerated events (Big arithmetic), nothing may appear outside the "
+         "scenario universe.",
+    technique="TLA+ spec (Ledger/LedgerBlock) + TLC exhaustive + TLC trace validation of real runs")
+CHECKS["C05"] = dict(cat="model_checking", ref="4 C05",
+    text="MC_Ledger proves NoUnauthorized on the design; on the real node every mutation class of a signed entry (signature/key/chain/salt/content/"
+         "key-type-before-activation), seeded (quick) or exhaustive (thorough) single-bit flips of content and external ids, and altered third-party copies "
+         "of executed entries are placed on a real chain; TLC requires each non-authorised entry to leave no trace at all.",
+    technique="TLA+ spec (Authorized/ArrivalStrict) + TLC exhaustive + TLC trace validation of mutated real entries")
+CHECKS["C09"] = dict(cat="model_checking", ref="4 C09",
+    text="MC_Restart (TLC) exhausts every rated/unrated pattern x restart set for the averages cache and proves the used window is AvgWindow (a function "
+         "of recorded rates); the reload-by-height deviation yields the counterexample. Real chains with gaps inside the window are run continuously and "
+         "with restarts after every block / at single heights / pairs; final dumps must agree and TLC validates every trace against the design window.",
+    technique="TLA+ spec of the cache (Ledger.CacheStep/AvgWindow, MC_Restart) + TLC exhaustive + replica comparison + trace validation")
+
 PENDING = {}
 
 def main():
